@@ -71,6 +71,59 @@ CLAIMED['C06'] = dict(
     technique='Coq invariant + non-interference proofs; differential correspondence on generated concurrent programs',
     design='5/C06')
 
+LIFE_NOTE = 'Trusted: Coq kernel; the lifecycle harness (GatePlugin user plugin, scenario runner, canonicalisation, oracles). Modelled, not verified: transitions.AsyncMachine trigger semantics, apluggy gather, asyncio.Lock FIFO hand-over, asyncio scheduling (assumption F, DESIGN.md 4.2), multiprocessing spawn. No axioms (Print Assumptions: closed).'
+LIFE_TIE = (' Tie to /repo on every run: gate-level co-simulation (the same label sequences executed by Life/Model.v inside Coq '
+            'and by the real Nextline with every hook gate held by a user plugin, observations compared label by label), scenario '
+            'families with real child processes (lifecycle points, transitions overlapping at every gate, k-sweeps over loop hops, '
+            'endings x signals), the corpus of the defects found on the unchanged tree, and the property oracle on every observation log.')
+CLAIMED['C01'] = dict(
+    text='Machine-checked proof (Coq 8.16.1) on the lifecycle LTS Life/Model.v (API calls from any number of tasks, every '
+         'suspension point a scheduling point, run task, child exit): for every label sequence every change of the state is an '
+         'edge of the documented diagram, closed is absorbing, an invalid run/reset is exactly `refuse` which changes nothing but '
+         'the call record; the transition table is REGENERATED from nextline/fsm/config.py and proved equal to the diagram and to '
+         'the accept conditions/destinations of the model.' + LIFE_TIE,
+    note=LIFE_NOTE, technique='Coq invariant proofs over an interleaving LTS (lock discipline + state/run-task invariants); table regenerated by ast translator; co-simulation',
+    design='5/C01')
+CLAIMED['C15'] = dict(
+    text='Machine-checked proof (Coq 8.16.1) on Life/Model.v: in every reachable state at most one child process is alive and only '
+         'while the state is running; finished implies the child has exited; a run request in any state but initialized and a reset '
+         'in any state but initialized/finished are exactly `refuse` (no effect); a run task exists only in running/finished.' + LIFE_TIE,
+    note=LIFE_NOTE, technique='Coq invariant proofs over an interleaving LTS; co-simulation + scenario oracles', design='5/C15')
+CLAIMED['C12'] = dict(
+    text='Machine-checked proof (Coq 8.16.1) on Life/Model.v: for every label sequence the hook history is accepted by the run-protocol '
+         'automaton (init-run, start-run, end-run while running, finished while finished; each once, in order, never for a run that '
+         'did not start), run arguments present from init-run through end-run and withdrawn at finished, exact correspondence between '
+         'the automaton state and (run task, state, run_arg), nothing delivered for a refused request. The plugin (un)registration '
+         'clause is covered by the co-simulation only.' + LIFE_TIE,
+    note=LIFE_NOTE, technique='Coq: abstraction to 11 abstract transitions + automaton invariant; co-simulation + oracle', design='5/C12')
+CLAIMED['C02'] = dict(
+    text='Machine-checked proof (Coq 8.16.1) on Life/Model.v: the run_info publications follow initialized, running, finished exactly '
+         'once per run with one number and script; the finished record and the result reported afterwards carry the outcome of that '
+         'run\'s child exit; waiters are released exactly when the run task has ended; progress: a rank decreases on every effective '
+         'run-task step, the run task is always enabled unless it waits for the child (or for the run() call under assumption F), and '
+         'from the child\'s exit it reaches finished in at most 7 steps. PARTIAL: the child process, OS signals and the executor are an '
+         'oracle of the model; every way of ending x signal instants is validated by real runs (scenario family `endings`).' + LIFE_TIE,
+    note=LIFE_NOTE + ' Known hazards found by the C17/C10 matrices (kill during a queue write) are recorded there.',
+    technique='Coq: automaton invariants + measure/progress lemmas; real-process ending matrix', design='5/C02')
+CLAIMED['C09'] = dict(
+    text='Machine-checked proof (Coq 8.16.1): the event grammar as a declarative spec WF and an executable recogniser proved correct '
+         '(wf r es = true <-> WF r es), prefix closure and completion (wf_prefix decides exactly the prefixes of WF streams), and an '
+         'emitter model (structured per-actor programs, shared counters, arbitrary interleaving) proved to emit only WF streams / '
+         'WF prefixes at any moment. Every real event stream produced by generated programs through the real spawned-side code is '
+         'decided by the PROVED recogniser inside Coq and by an independent oracle, and replayed in the emitter model. PARTIAL: '
+         'that Python with/finally and settrace produce structured programs is validated by the replay, not proved.',
+    note='Trusted: Coq kernel; harness. Modelled: itertools.count and Queue.put atomic. No axioms.',
+    technique='Coq: verified recogniser + emitter invariant; membership of real traces decided by computation', design='5/C09')
+CLAIMED['C11'] = dict(
+    text='Machine-checked proof (Coq 8.16.1): executable model of the registrars (trace_nos, trace_info, prompt_info, prompt_notice, '
+         'run_info, stdout) with the hook/registration table REGENERATED from the source; for every event stream that is a prefix of a '
+         'well-formed one (= a kill anywhere): active set = started-not-ended in start order after every event, trace info running '
+         'then finished exactly once, prompts reported open then closed with the answering command, notices one-to-one with prompt '
+         'starts, and after on_end_run everything is closed out and (with the C08 theorems) every subscriber terminates. Tie: the real '
+         'registrars + PluginManager + PubSub driven on generated and recorded streams cut at every prefix, publications compared per topic.',
+    note='Trusted: Coq kernel; translator hook_order.py; harness. Modelled: gather of non-suspending implementations (checked per run), dict order. No axioms.',
+    technique='Coq fold invariants over WF prefixes; tables regenerated by ast translator; differential correspondence', design='5/C11')
+
 NOT_YET = {
 }
 
